@@ -1063,7 +1063,7 @@ func main() {
 	mon.Floor("cli:output:file", 100)
 	mon.Floor("cli:alphabet:aa", 20)
 	for _, ma := range cliModelArgs {
-		mon.Floor("cli:distboot:model-flag:"+ma.arg, 8)
+		mon.Floor("cli:distboot:model-flag:"+ma.arg, 6)
 	}
 	for _, f := range []string{"fasta", "phylip", "phylip-strict", "auto-fasta", "auto-phylip"} {
 		mon.Floor("cli:distboot:format:"+f, 8)
